@@ -41,7 +41,8 @@ RULE = ("hooks: types of depth <= 2 from 19 scalar shapes, arrays, hashes, union
         "keys and nil values; end to end: 12-step programs; non-trivial = a nested literal, a repeated key or a growth step")
 TRUSTED = []
 ASSUMPTIONS = []
-PARTIAL = ["OWNER returns and return types written as a namespace path are not modelled", "nested hashes and arrays of hashes: exploration only"]
+PARTIAL = ["OWNER returns and return types written as a namespace path are not modelled",
+           "a Float literal written with an exponent and no fraction (1e3) is lexed as the Integer before the `e` (kept finding; not generated)", "nested hashes and arrays of hashes: exploration only"]
 
 
 def part_tyops_corr(ctx, part):
@@ -129,6 +130,13 @@ def part_e2e(ctx, part):
 
 
 PARTS = [part_tyops_corr, part_hash_corr, execcorr.part_exec_type, condcorr.part_cond_return, part_e2e]
+
+
+def replay_finding(ctx, k):
+    if k["id"] == "C09-exponent-literal":
+        with C.Workdir() as wd:
+            return "t.rb:::1:::Float" not in wd.ti([wd.write("dbtp 1e3\n", "t.rb")]).out
+    return None
 
 
 def replay(path):
